@@ -133,12 +133,14 @@ package collection
 //@ func (tw *TimingWheel) moveTask
 //@   property C12
 //@   requires wheelOK(tw) && timersOK(tw)
-//@   requires task.delay >= tw.interval
 //@   requires implies(smHas(tw.timers, task.key), itemOK(tw, pe(tw, task.key).item))
 //@   ensures  wheelOK(tw) && timersOK(tw)
 //@   ensures  forall(k.(any), smHas(tw.timers, k) == old(smHas(tw.timers, k)))
-//@   ensures  implies(smHas(tw.timers, task.key), rem(tw, pe(tw, task.key).item) == int(task.delay / tw.interval))
-//@   ensures  implies(smHas(tw.timers, task.key), itemOK(tw, pe(tw, task.key).item) && inWheel(tw, pe(tw, task.key).item))
+//@   ensures  implies(task.delay >= tw.interval && smHas(tw.timers, task.key), rem(tw, pe(tw, task.key).item) == int(task.delay / tw.interval))
+//@   ensures  implies(task.delay >= tw.interval && smHas(tw.timers, task.key), itemOK(tw, pe(tw, task.key).item) && inWheel(tw, pe(tw, task.key).item))
+// a delay below one tick fires the callback at once on its own goroutine and leaves the wheel as it is
+//@   ensures  implies(task.delay < tw.interval && smHas(tw.timers, task.key), pe(tw, task.key).item == old(pe(tw, task.key).item) && pe(tw, task.key).pos == old(pe(tw, task.key).pos) &&
+//@              pe(tw, task.key).item.removed == old(pe(tw, task.key).item.removed) && pe(tw, task.key).item.circle == old(pe(tw, task.key).item.circle) && pe(tw, task.key).item.diff == old(pe(tw, task.key).item.diff) && listOf[pe(tw, task.key).item] == old(listOf[pe(tw, task.key).item]))
 //@   ensures  implies(smHas(tw.timers, task.key), pe(tw, task.key).item.value == old(pe(tw, task.key).item.value) && pe(tw, task.key).item.key == task.key)
 //@   ensures  implies(smHas(tw.timers, task.key) && pe(tw, task.key).item != old(pe(tw, task.key).item), old(pe(tw, task.key).item).removed && fresh(pe(tw, task.key).item))
 //@   ensures  forall(x.(*timingEntry), implies(old(allocated(x)) && !(old(smHas(tw.timers, task.key)) && x == old(pe(tw, task.key).item)),
@@ -848,6 +850,7 @@ package collection
 //@   property C16 C12
 //@   flag private_channels
 //@   ghost at entry: twSets = twSets + 1
+//@   call send#0: assert arg_sent.key == key && arg_sent.value == value && arg_sent.delay == delay && delay > 0 && key != nil && arg_sent.circle == 0 && arg_sent.diff == 0 && !arg_sent.removed
 //@   ensures twSets == old(twSets) + 1
 //@   ensures implies(delay <= 0 || key == nil, result == ErrArgument)
 //@   ensures result == nil || result == ErrArgument || result == ErrClosed
@@ -856,6 +859,7 @@ package collection
 //@   property C16 C12
 //@   flag private_channels
 //@   ghost at entry: twMoves = twMoves + 1
+//@   call send#0: assert arg_sent.key == key && arg_sent.delay == delay && delay > 0 && key != nil
 //@   ensures twMoves == old(twMoves) + 1
 //@   ensures implies(delay <= 0 || key == nil, result == ErrArgument)
 //@   ensures result == nil || result == ErrArgument || result == ErrClosed
@@ -864,6 +868,7 @@ package collection
 //@   property C16 C12
 //@   flag private_channels
 //@   ghost at entry: twRemoves = twRemoves + 1
+//@   call send#0: assert arg_sent == key && key != nil
 //@   ensures twRemoves == old(twRemoves) + 1
 //@   ensures implies(key == nil, result == ErrArgument)
 //@   ensures result == nil || result == ErrArgument || result == ErrClosed
